@@ -53,6 +53,7 @@ type fnSummary struct {
 }
 
 type effects struct {
+	site   map[token.Pos][]*types.Func // thorough tier: call site ('(' position) -> callees according to VTA
 	prog   *core.Program
 	sums   map[*types.Func]*fnSummary
 	decls  map[*types.Func]*effDecl
@@ -75,12 +76,52 @@ type origin struct {
 }
 
 var effCache = map[*core.Program]*effects{}
+var effCacheDeep = map[*core.Program]*effects{}
+
+// effectsDeep is switched on by the rules when they run in the thorough tier: calls through function values
+// (`evaluate(a, b, out)` with evaluate a parameter, method values stored in fields) are then resolved with the VTA
+// call graph built over go/ssa, so that their write effects enter the summaries as well.
+var effectsDeep bool
 
 func effectsOf(p *core.Program) *effects {
-	if e, ok := effCache[p]; ok {
+	cache := effCache
+	if effectsDeep && !p.IsFixture {
+		cache = effCacheDeep
+	}
+	if e, ok := cache[p]; ok {
 		return e
 	}
 	e := &effects{prog: p, sums: map[*types.Func]*fnSummary{}, decls: map[*types.Func]*effDecl{}, byName: map[string][]*types.Func{}}
+	if effectsDeep && !p.IsFixture {
+		e.site = map[token.Pos][]*types.Func{}
+		cg := p.CallGraph()
+		for _, nd := range cg.Nodes {
+			for _, ed := range nd.Out {
+				if ed.Site == nil || ed.Callee == nil || ed.Callee.Func == nil {
+					continue
+				}
+				fn := ed.Callee.Func
+				if o := fn.Origin(); o != nil {
+					fn = o
+				}
+				obj, ok := fn.Object().(*types.Func)
+				if !ok || obj == nil {
+					continue
+				}
+				pos := ed.Site.Pos()
+				dup := false
+				for _, x := range e.site[pos] {
+					if x == funcOrigin(obj) {
+						dup = true
+					}
+				}
+				if !dup {
+					e.site[pos] = append(e.site[pos], funcOrigin(obj))
+				}
+			}
+		}
+		p.Stats["vta_call_sites"] = len(e.site)
+	}
 	p.FuncDecls(func(pk *packages.Package, file *ast.File, fd *ast.FuncDecl) {
 		if fd.Body == nil || fileIsTestSupport(p, fd.Pos()) || inExamples(pk) {
 			return
@@ -142,7 +183,7 @@ func effectsOf(p *core.Program) *effects {
 		}
 	})
 	e.solve()
-	effCache[p] = e
+	cache[p] = e
 	return e
 }
 
@@ -197,6 +238,16 @@ func pathsOverlap(a, b string) bool {
 func (e *effects) callees(info *types.Info, call *ast.CallExpr) []*types.Func {
 	f := calleeFunc(info, call)
 	if f == nil {
+		// a call through a function value: resolved only in the thorough tier
+		if e.site != nil {
+			var res []*types.Func
+			for _, g := range e.site[call.Lparen] {
+				if _, ok := e.sums[g]; ok {
+					res = append(res, g)
+				}
+			}
+			return res
+		}
 		return nil
 	}
 	f = funcOrigin(f)
@@ -512,7 +563,7 @@ type bsWit map[string]string
 
 func scanBufState(c *core.Ctx) []ob {
 	var out []ob
-	e := effectsOf(c.Program)
+	e := effFor(c)
 	debug := os.Getenv("LV_DEBUG_BUFSTATE")
 	nFuncs, nUses := 0, 0
 	var fns []*types.Func
@@ -846,7 +897,7 @@ func init() {
 // by-name-resolved callee) writes through.
 func scanImmutX(c *core.Ctx) []ob {
 	var out []ob
-	e := effectsOf(c.Program)
+	e := effFor(c)
 	n := 0
 	var fns []*types.Func
 	for f := range e.decls {
@@ -925,7 +976,7 @@ func init() {
 // parameter.
 func scanBufAlias(c *core.Ctx) []ob {
 	var out []ob
-	e := effectsOf(c.Program)
+	e := effFor(c)
 	n := 0
 	var fns []*types.Func
 	for f := range e.decls {
@@ -1018,7 +1069,7 @@ var outParamRe = regexp.MustCompile(`(^out$|Out$|Out[A-Z0-9]|^out[A-Z])`)
 
 func scanOutParamW(c *core.Ctx) []ob {
 	var out []ob
-	e := effectsOf(c.Program)
+	e := effFor(c)
 	n := 0
 	var fns []*types.Func
 	for f := range e.decls {
@@ -1110,4 +1161,10 @@ func init() {
 			}
 			return out
 		}})
+}
+
+// effFor returns the summaries for the context's tier (thorough: with VTA-resolved function values).
+func effFor(c *core.Ctx) *effects {
+	effectsDeep = c.Tier == "thorough"
+	return effectsOf(c.Program)
 }
